@@ -8,8 +8,11 @@ package vsched
 
 import (
 	"fmt"
+	"runtime"
 	"runtime/debug"
 	"strings"
+	"sync"
+	"sync/atomic"
 	"time"
 
 	"verif/vsync"
@@ -23,7 +26,17 @@ type thread struct {
 	guard    func() bool
 	what     string
 	finished bool
+	// detached: the thread was given the baton but did not come back to a scheduling point within
+	// StepTimeout - it is blocked (or busy) in code the scheduler does not control, e.g. inside bbolt waiting
+	// for another thread's transaction to end. It is treated as not enabled until it parks again.
+	detached bool
 }
+
+// StepTimeout: how long a thread may take to reach its next scheduling point before it is detached.
+var StepTimeout = 10 * time.Second
+
+// ExternalBlockTimeout: how long to wait for a detached thread when nothing else can run.
+var ExternalBlockTimeout = 20 * time.Second
 
 // Point is one scheduling decision.
 type Point struct {
@@ -39,11 +52,16 @@ type Point struct {
 
 // Execution is the record of one complete run.
 type Execution struct {
-	Points      []Point
-	Deadlock    bool
-	Blocked     []string // descriptions of the blocked threads at a deadlock
-	Panics      []string
-	Hung        string
+	Points   []Point
+	Deadlock bool
+	Blocked  []string // descriptions of the blocked threads at a deadlock
+	Panics   []string
+	Hung     string
+	// Detached lists threads that blocked outside the scheduler's control and were left to run on their own
+	// (the rest of such an execution is a real, but no longer a replayable, interleaving); DetachAt is the
+	// number of choice points recorded when the first one was detached.
+	Detached    []string
+	DetachAt    int
 	Diverged    string
 	Steps       int
 	StepCapHit  bool
@@ -88,6 +106,32 @@ type sched struct {
 	x        *Execution
 	aborting bool
 	maxSteps int
+	byGoid   sync.Map // goroutine id -> *thread, used while a detached thread may run next to the current one
+	detached int32
+}
+
+func goid() int64 {
+	var buf [64]byte
+	n := runtime.Stack(buf[:], false)
+	// "goroutine 123 ["
+	var id int64
+	for _, c := range buf[len("goroutine "):n] {
+		if c < '0' || c > '9' {
+			break
+		}
+		id = id*10 + int64(c-'0')
+	}
+	return id
+}
+
+func (s *sched) self() *thread {
+	if atomic.LoadInt32(&s.detached) == 0 {
+		return s.cur
+	}
+	if t, ok := s.byGoid.Load(goid()); ok {
+		return t.(*thread)
+	}
+	return s.cur
 }
 
 var _ vsync.Hooks = (*sched)(nil)
@@ -97,7 +141,7 @@ func (s *sched) Yield(what string, guard func() bool) {
 	if s.aborting {
 		return
 	}
-	t := s.cur
+	t := s.self()
 	t.what, t.guard = what, guard
 	t.pc++
 	s.parked <- t
@@ -119,6 +163,7 @@ func (s *sched) spawn(name string, f func()) *thread {
 	s.threads = append(s.threads, t)
 	s.x.ThreadNames = append(s.x.ThreadNames, t.name)
 	go func() {
+		s.byGoid.Store(goid(), t)
 		<-t.wake
 		defer func() {
 			if r := recover(); r != nil {
@@ -187,19 +232,46 @@ func RunKeyed(prefix []int, maxSteps int, body func(), keyFn func() string) *Exe
 	var running *thread
 	for {
 		// collect enabled threads (all threads are parked here, so guards can be evaluated safely)
+		// detached threads that reached a scheduling point in the meantime are ordinary parked threads again
+		for drained := false; !drained && atomic.LoadInt32(&s.detached) > 0; {
+			select {
+			case t := <-s.parked:
+				t.detached = false
+				atomic.AddInt32(&s.detached, -1)
+			default:
+				drained = true
+			}
+		}
 		var enabled []*thread
 		unfinished := 0
+		detachedNow := 0
 		for _, t := range s.threads {
 			if t.finished {
 				continue
 			}
 			unfinished++
+			if t.detached {
+				detachedNow++
+				continue
+			}
 			if t.guard == nil || t.guard() {
 				enabled = append(enabled, t)
 			}
 		}
 		if unfinished == 0 {
 			break
+		}
+		if len(enabled) == 0 && detachedNow > 0 {
+			// nothing the scheduler controls can run: wait for a detached thread to come back
+			select {
+			case t := <-s.parked:
+				t.detached = false
+				atomic.AddInt32(&s.detached, -1)
+				continue
+			case <-time.After(ExternalBlockTimeout):
+				s.x.Hung = fmt.Sprintf("%d thread(s) blocked outside the scheduler (%s) and no other thread can run", detachedNow, strings.Join(s.x.Detached, "; "))
+				return s.x
+			}
 		}
 		if len(enabled) == 0 {
 			s.x.Deadlock = true
@@ -269,11 +341,26 @@ func RunKeyed(prefix []int, maxSteps int, body func(), keyFn func() string) *Exe
 		s.cur = chosen
 		s.x.Steps++
 		chosen.wake <- struct{}{}
-		select {
-		case <-s.parked:
-		case <-time.After(30 * time.Second):
-			s.x.Hung = fmt.Sprintf("thread %s did not reach a scheduling point within 30s after %s (blocked outside the scheduler)", chosen.name, chosen.what)
-			return s.x
+		for back := false; !back; {
+			select {
+			case t := <-s.parked:
+				if t == chosen {
+					back = true
+				} else { // a detached thread came back
+					t.detached = false
+					atomic.AddInt32(&s.detached, -1)
+				}
+			case <-time.After(StepTimeout):
+				// blocked (or busy) in code the scheduler does not control: let the others go on
+				chosen.detached = true
+				atomic.AddInt32(&s.detached, 1)
+				if len(s.x.Detached) == 0 {
+					s.x.DetachAt = len(s.x.Points)
+				}
+				s.x.Detached = append(s.x.Detached, fmt.Sprintf("%s after %s", chosen.name, chosen.what))
+				running = nil
+				back = true
+			}
 		}
 	}
 	return s.x
@@ -284,7 +371,7 @@ func RunKeyed(prefix []int, maxSteps int, body func(), keyFn func() string) *Exe
 func (s *sched) abort() {
 	s.aborting = true
 	for _, t := range s.threads {
-		if t.finished {
+		if t.finished || t.detached {
 			continue
 		}
 		s.cur = t
@@ -369,6 +456,9 @@ func (e *Explorer) explore(prefix []int) {
 	}
 	cost := used
 	for i := len(prefix); i < len(x.Points); i++ {
+		if len(x.Detached) > 0 && i >= x.DetachAt {
+			break // beyond this point the execution was not under the scheduler's control
+		}
 		p := x.Points[i]
 		for alt := 1; alt < len(p.Enabled); alt++ {
 			if cost+preemptionCost(p, alt) > e.Bound {
